@@ -38,34 +38,36 @@ def _solve(constraints, timeout_ms, rlimit=None):
 
 
 def _cvc5_check(constraints, timeout_ms):
-    """second opinion: same query through cvc5 (python API, SMT-LIB2 text produced by z3)"""
-    try:
-        import cvc5
-    except Exception:
+    """second opinion: the same query (SMT-LIB2 text produced by z3) through the cvc5 binary in a subprocess with a hard timeout"""
+    import os
+    import shutil
+    import subprocess
+    import tempfile
+    exe = shutil.which("cvc5")
+    if not exe:
         return "unavailable"
     s = z3.Solver()
     for c in constraints:
         s.add(c)
-    txt = s.to_smt2()
+    txt = "(set-logic QF_NRA)\n" + s.to_smt2()
+    fd, path = tempfile.mkstemp(suffix=".smt2", prefix="symgeo_")
     try:
-        slv = cvc5.Solver()
-        slv.setOption("tlimit-per", str(int(timeout_ms)))
-        slv.setLogic("QF_NRA")
-        parser = cvc5.InputParser(slv)
-        parser.setStringInput(cvc5.InputLanguage.SMT_LIB_2_6, txt, "q")
-        sm = parser.getSymbolManager()
-        res = None
-        while True:
-            cmd = parser.nextCommand()
-            if cmd.isNull():
-                break
-            out = cmd.invoke(slv, sm)
-            o = str(out).strip()
-            if o in ("sat", "unsat", "unknown"):
-                res = o
-        return res or "unknown"
-    except Exception as e:  # noqa
+        with os.fdopen(fd, "w") as f:
+            f.write(txt)
+        p = subprocess.run([exe, f"--tlimit={int(timeout_ms)}", path], capture_output=True, text=True, timeout=timeout_ms / 1000.0 + 5)
+        out = (p.stdout or "").strip().split("\n")[0].strip()
+        if "(error" in (p.stdout or "") or "(error" in (p.stderr or ""):
+            return "error"
+        return out if out in ("sat", "unsat", "unknown") else "unknown"
+    except subprocess.TimeoutExpired:
+        return "unknown"
+    except Exception:
         return "error"
+    finally:
+        try:
+            os.unlink(path)
+        except OSError:
+            pass
 
 
 class Budget:
